@@ -179,6 +179,7 @@ func VerifC18Partition() {
 // transparency and exact counts on template programs with symbolic input
 func VerifC18Counts() {
 	templates := []string{
+		"$0 == \"a\"\n$0 == \"b\" { }\n$0 == \"c\" {\nC[4]++; print \"c\"\n}\nEND { }\n",
 		"{\nC[2]++; if ($0 == \"a\") {\nC[3]++; n++\n}\nC[5]++; m++\n}\nEND {\nC[8]++; print n, m\n}\n",
 		"{\nC[2]++; while (i < 2) {\nC[3]++; i++; if ($0 == \"b\") {\nC[4]++; break\n}\nC[6]++; j++\n}\nC[8]++; i = 0\n}\nEND {\nC[11]++; print j; exit 3\n}\n",
 		"function f(x) {\nC[2]++; if (x == \"a\") {\nC[3]++; return 1\n}\nC[5]++; return 0\n}\n{\nC[8]++; s += f($0); if ($0 == \"c\") {\nC[9]++; next\n}\nC[11]++; t++\n}\nEND {\nC[14]++; print s, t\n}\n",
